@@ -270,6 +270,26 @@ func stringRuns(thorough bool) *space {
 	}
 }
 
+// wrapLengths: a length check done in a narrower integer type accepts n + k*256 (n + k*65536)
+// octets for n: payloads of the lengths n+256, n+512, n+768, n+1024 and n+65536, each filled with
+// 00, FF and 41 (the leading octet 00).
+func wrapLengths(n int) *space {
+	lens := []int{n + 256, n + 512, n + 768, n + 1024, n + 65536}
+	return &space{
+		name: fmt.Sprintf("payload lengths that equal the fixed length %d modulo 256 and 65536 (%v) x fill {00,ff,41}", n, lens),
+		size: uint64(len(lens) * 3),
+		gen: func(i uint64, buf []byte) []byte {
+			l := lens[i/3]
+			fill := fills[i%3]
+			buf = append(buf, 0)
+			for len(buf) < l {
+				buf = append(buf, fill)
+			}
+			return buf
+		},
+	}
+}
+
 // varStrings: 28.001: leading octet {00,ff} + every byte string of length <= 3 over
 // {00,41,7f,c3,a9,ff}, with and without the NUL terminator.
 func varStrings() *space {
